@@ -141,6 +141,28 @@ func (w *World) pools() []*poolInfo {
 						}
 					}
 				}
+				// New: newPooled[T] — an instantiation of a generic constructor of the package
+				if ix, ok := kv.Value.(*ast.IndexExpr); ok {
+					if id, ok := ix.X.(*ast.Ident); ok {
+						if f, ok := w.Info.Uses[id].(*types.Func); ok {
+							if d := w.decls[f]; d != nil {
+								inst := w.Info.Instances[id]
+								ast.Inspect(d.Body, func(m ast.Node) bool {
+									if ret, ok := m.(*ast.ReturnStmt); ok && len(ret.Results) == 1 && target.elem == nil {
+										t := w.Info.TypeOf(ret.Results[0])
+										if pt, ok := t.(*types.Pointer); ok {
+											if tp, ok := pt.Elem().(*types.TypeParam); ok && inst.TypeArgs != nil && tp.Index() < inst.TypeArgs.Len() {
+												target.elem = types.NewPointer(inst.TypeArgs.At(tp.Index()))
+											}
+										}
+									}
+									return true
+								})
+							}
+						}
+					}
+					continue
+				}
 				if newBody == nil {
 					continue
 				}
